@@ -144,7 +144,7 @@ Definition to_string (v : value) : tri string :=
   | VBool b => TOk (if b then "true" else "false")
   | VInt z => TOk (Z_to_string z)
   | VFloat f => fmt_float f
-  | VErr e => TOk (err_message e)
+  | VErr _ => TMiss "tostring of an error value (fmt prints the struct with its position)"
   | _ => TMiss "tostring of container"
   end.
 
